@@ -274,7 +274,7 @@ func runDetect(t *testing.T, s detScn) (x nExec) {
 		B := s.bound(s.N)
 		lastCrash := crashAt + time.Duration(s.Crash2)*time.Millisecond
 		cfg := clusterCfg{N: s.N, L0: time.Millisecond, LatAlt: []time.Duration{240 * time.Millisecond}, AllowDrop: true, AllowDup: true,
-			FaultFrom: crashAt, FaultTo: lastCrash + B, Horizon: lastCrash + B + 2*time.Second, StreamAlt: s.Cfg.TCP,
+			FaultFrom: crashAt, FaultTo: lastCrash + B, Horizon: lastCrash + B + 2*time.Second, StreamAlt: s.Cfg.TCP, StreamCut: 8,
 			Opts: func(i int, c *ml.Config) {
 				c.ProbeInterval = time.Second
 				c.ProbeTimeout = 500 * time.Millisecond
